@@ -180,6 +180,9 @@ def validator_refusals(ctx, prog):
         "accept": (1, {("Le", "EXPANDED", "SZ_BH")}),
     }
     used = set()
+    loop_form = []
+    NEWRUN_START = "Sub((POS as usize),Sub(MAX_SEQUENCE_SIZE=3,1))"
+    NEWRUN_CH = "param:blockhash[%s]" % NEWRUN_START
     for name, (val, atoms) in want.items():
         hit = None
         for k, (v, a, sp) in enumerate(sites):
@@ -189,6 +192,12 @@ def validator_refusals(ctx, prog):
                 rest = a - ({nt} | inpos | {("Ne", "PREVPOS", "POS")})
                 if {("Ne", "PREVPOS", "POS")} <= a and len(rest) == 1 and list(rest)[0][0] == "truth" and "Iterator>::any(" in list(rest)[0][1] and list(rest)[0][2] is True:
                     hit = k
+                # the same search written as a loop: refused inside `for x in slice` as soon as an element differs from `ch`
+                r0 = list(rest)[0] if len(rest) == 1 else None
+                if hit is None and {("Ne", "PREVPOS", "POS")} <= a and r0 is not None and r0[0] == "Ne" and \
+                        any("Iterator>::next(" in x for x in r0[1:]) and any(x.replace(" ", "") == NEWRUN_CH.replace(" ", "") for x in r0[1:]):
+                    hit = k
+                    loop_form.append(k)
             elif a == frozenset(atoms):
                 hit = k
         if hit is not None:
@@ -216,6 +225,14 @@ def validator_refusals(ctx, prog):
                 ok = bool(re.match(r"^Ne\(param:\w+,param:\w*1\.0\)$", ce))
                 ok = ok and len(caps) == 1 and caps[0].replace(" ", "") == ("param:blockhash[%s]" % start).replace(" ", "")
                 why += "; closure %s capturing %s" % (ce[:60], caps)
+    if not ok and loop_form:
+        # loop form: the elements come from an iterator over blockhash[pos-1 ..= pos]
+        for i, t in f.calls():
+            if callee_of(t).endswith("::next") and t["args"]:
+                src = N(canon(strip(sy.origin(strip(sy.operand(t["args"][0]))))))
+                if "RangeInclusive" in src and "Add(%s,1)" % NEWRUN_START in src and "(POS as usize)" in src and "param:blockhash" in src:
+                    ok = True
+                    why = "loop over %s, refused on the first element that differs from %s" % (src[:160], NEWRUN_CH)
     ctx.ob(RV, "RLE validator: a new run is checked as `any symbol of blockhash[pos-1 ..= pos] differs from blockhash[pos-2]`", ok, why, f.loc())
 
 
